@@ -28,6 +28,28 @@ type SpecEnv struct {
 	result []Val
 	depth  int
 	bound  *binding
+	guard  Term       // path condition inside the expression (ite / && / || / ==> branches)
+	rec    *recTrack  // set while the body of a recursive spec function is unfolded
+}
+
+type recCall struct {
+	guard Term
+	args  []Val
+}
+
+type recTrack struct {
+	sf    *SpecFunc
+	calls []recCall
+}
+
+func (env *SpecEnv) withGuard(g Term) *SpecEnv {
+	n := *env
+	if env.guard.S == "" {
+		n.guard = g
+	} else {
+		n.guard = env.e.c.and(env.guard, g)
+	}
+	return &n
 }
 
 // with binds a quantifier variable (linked list: no map copy per iteration)
@@ -237,6 +259,15 @@ func (env *SpecEnv) eval(x ast.Expr) Val {
 	return Val{}
 }
 
+// eval0 evaluates the dead branch of an ite (needed only for its shape); recursive
+// applications in it are not tracked
+func (env *SpecEnv) eval0(x ast.Expr) (out *Val) {
+	n := *env
+	n.rec = nil
+	v := n.eval(x)
+	return &v
+}
+
 func (env *SpecEnv) lookupVar(name string) (Val, bool) {
 	for b := env.bound; b != nil; b = b.next {
 		if b.name == name {
@@ -363,14 +394,14 @@ func (env *SpecEnv) binary(n *ast.BinaryExpr) Val {
 		if a.T().S == "false" {
 			return a
 		}
-		b := env.eval(n.Y)
+		b := env.withGuard(a.T()).eval(n.Y)
 		return scalar(boolT, c.and(a.T(), b.T()))
 	case token.LOR:
 		a := env.eval(n.X)
 		if a.T().S == "true" {
 			return a
 		}
-		b := env.eval(n.Y)
+		b := env.withGuard(c.not(a.T())).eval(n.Y)
 		return scalar(boolT, c.or(a.T(), b.T()))
 	}
 	a, b := env.eval(n.X), env.eval(n.Y)
@@ -624,14 +655,32 @@ func (env *SpecEnv) callExpr(n *ast.CallExpr) Val {
 				if a.T().S == "false" {
 					return scalar(boolT, tTrue)
 				}
-				b := env.eval(n.Args[1])
+				b := env.withGuard(a.T()).eval(n.Args[1])
 				return scalar(boolT, c.implies(a.T(), b.T()))
 			case "iff":
 				a, b := env.eval(n.Args[0]), env.eval(n.Args[1])
 				return scalar(boolT, c.eq(a.T(), b.T()))
 			case "ite":
 				cond := env.eval(n.Args[0])
-				a, b := env.unify(env.eval(n.Args[1]), env.eval(n.Args[2]))
+				var av, bv Val
+				switch cond.T().S {
+				case "true":
+					av = env.eval(n.Args[1])
+					bv = av
+					if x := env.eval0(n.Args[2]); x != nil {
+						bv = *x
+					}
+				case "false":
+					bv = env.eval(n.Args[2])
+					av = bv
+					if x := env.eval0(n.Args[1]); x != nil {
+						av = *x
+					}
+				default:
+					av = env.withGuard(cond.T()).eval(n.Args[1])
+					bv = env.withGuard(c.not(cond.T())).eval(n.Args[2])
+				}
+				a, b := env.unify(av, bv)
 				if a.K != nil {
 					a, b = env.typed(a, types.Typ[types.Int]), env.typed(b, types.Typ[types.Int])
 				}
@@ -945,9 +994,22 @@ func (env *SpecEnv) applySpec(sf *SpecFunc, argx []ast.Expr) Val {
 		}
 		sub.vars[p.Name] = v
 	}
+	if sf.Recursive && env.rec != nil && env.rec.sf == sf {
+		var args []Val
+		for _, p := range sf.Params {
+			args = append(args, sub.vars[p.Name])
+		}
+		g := env.guard
+		if g.S == "" {
+			g = tTrue
+		}
+		env.rec.calls = append(env.rec.calls, recCall{g, args})
+	}
 	if sf.Opaque {
 		return env.applyOpaque(sf, &sub)
 	}
+	sub.guard = env.guard
+	sub.rec = env.rec
 	out := e.evalSpec(sf.Body, &sub)
 	if sf.Result != "" && sf.Result != "any" {
 		rt := sub.lookupType(sf.Result)
@@ -1119,7 +1181,7 @@ func (env *SpecEnv) applyOpaque(sf *SpecFunc, sub *SpecEnv) Val {
 			hasArray = true
 		}
 	}
-	if e.reveal[sf.Name] || hasArray {
+	if e.reveal[sf.Name] || hasArray || sf.Recursive {
 		return scalar(rt, env.opaqueConst(sf, sub, name, rt, rs, args, 0))
 	}
 	e.prog.declareUF(c, name, sorts, rs)
@@ -1170,7 +1232,7 @@ func (env *SpecEnv) opaqueConst(sf *SpecFunc, sub *SpecEnv, name string, rt type
 	c.symOfConst[app.S] = name
 	c.appArgs[app.S] = append([]Term{}, args...)
 	c.appOrder = append(c.appOrder, app.S)
-	if e.reveal[sf.Name] {
+	if e.reveal[sf.Name] && !sf.Recursive {
 		// rebind the parameters to exactly these argument terms
 		sub2 := *sub
 		sub2.vars = map[string]Val{}
